@@ -345,6 +345,10 @@ func (stallComp) Exec(op string) (string, string, string, bool) {
 		out, why := stallHoldOp(f[0], f[1], m, time.Duration(hold)*time.Second, f[4] == "gf")
 		return out, why, f[0] + " " + f[1] + " hold", out == "served"
 	}
+	if len(f) == 4 && strings.HasPrefix(f[3], "acc:") {
+		m, _ := strconv.Atoi(f[2])
+		return stallAcceptFailOp(f[0], f[1], m, f[3])
+	}
 	if len(f) != 3 {
 		return "bad-op", "", "bad", false
 	}
@@ -382,6 +386,7 @@ func (stallComp) Gen(r *Rand, tier string, emit func(string)) {
 	emit("dns junk 14")
 	emit("dns other 2")
 	emit("tcp connect 1 12 sf")
+	stallAcceptFailGen(r, tier, emit)
 	if tier == "thorough" {
 		emit("tcp connect 1 25 sf")
 		emit("tcp partial 2 25 gf")
